@@ -342,6 +342,7 @@ def aead(ctx):
         oks = [st for b in sorted(body.live_blocks()) for st in body.stmts(b)
                if st['rv']['k'] == 'agg' and st['rv'].get('adt') == 'std::result::Result' and st['rv']['variant'] == 'Ok'
                and st['lhs']['l'] == 0]
+        oks = [st for st in oks if not any(x is d for x in backward_slice(body, st['rv']['ops'], follow_mutarg=False).calls)]
         ctx.check(okret and not oks, body.key, 'plaintext <- Dem::decrypt',
                   'AE::decrypt can return data that is not the output of Dem::decrypt', 'return value derives from Dem::decrypt',
                   body.where())
@@ -349,7 +350,8 @@ def aead(ctx):
     # --- EncryptedHeader::decrypt
     hb = F.fn('encrypted_header::EncryptedHeader::decrypt')
     found = 0
-    for fb in F.family(hb.key):
+    hfam = lib.reach_bodies(F, hb.key, stop=[b.key for b in F.fns() if b.name in ('decaps', 'encaps') or 'primitives' in b.key])
+    for fb in hfam:
         for d in fb.calls(DEM_DEC):
             found += 1
             ctx.check(identity_to_param(F, fb, d.args[3], 'authentication_data'), hb.key, 'decrypt(aad <- authentication_data)',
@@ -363,7 +365,7 @@ def aead(ctx):
     ctx.check(found == 1, hb.key, 'one Dem::decrypt', 'EncryptedHeader::decrypt must decrypt the metadata with Dem::decrypt '
               'exactly once (found %d): metadata must not be returned unauthenticated' % found, '', hb.where())
     # metadata handed out only from that decryption
-    for fb in F.family(hb.key):
+    for fb in hfam:
         for b in sorted(fb.live_blocks()):
             for st in fb.stmts(b):
                 rv = st['rv']
@@ -375,6 +377,9 @@ def aead(ctx):
                         for (_i, cb, _rv) in lib.closure_args(F, c):
                             if cb.calls(DEM_DEC):
                                 lz = True
+                        cal = lib.local_callee(F, c)
+                        if cal is not None and any(x.calls(DEM_DEC) for x in lib.reach_bodies(F, cal.key)):
+                            lz = True
                     ctx.check(lz or any(c.is_(DEM_DEC) for c in calls), hb.key, 'metadata <- Dem::decrypt',
                               'the metadata of the cleartext header (line %d) is not the output of Dem::decrypt' % st['ln'],
                               'metadata derives from Dem::decrypt', fb.where(st['ln']))
@@ -397,6 +402,18 @@ def check_split(ctx, F, body, d, what):
     ni = [c for c in nonce_sl.calls if c.is_(r'^std::ops::Index::index$')]
     bi = [c for c in body_sl.calls if c.is_(r'^std::ops::Index::index$')]
     root = body.root or body.key
+    sa_n = [c for c in nonce_sl.calls if c.is_(r'core::slice::<impl \[T\]>::split_at$')]
+    sa_b = [c for c in body_sl.calls if c.is_(r'core::slice::<impl \[T\]>::split_at$')]
+    if not ni and not bi and len(sa_n) == 1 and sa_b == sa_n:
+        n_ = lib.classify_scalar(body, sa_n[0].args[1])
+        # nonce = .0, body = .1 of the same split
+        pn = set(tuple(x for x in field_path(p) if x in ('0', '1')) for p in nonce_sl.places if p['l'] == sa_n[0].dest['l'])
+        pb_ = set(tuple(x for x in field_path(p) if x in ('0', '1')) for p in body_sl.places if p['l'] == sa_n[0].dest['l'])
+        ok = n_[0] == 'const' and pn == {('0',)} and pb_ == {('1',)}
+        ctx.check(ok, root, 'nonce = in[..N], body = in[N..]',
+                  'the ciphertext is not split into nonce = first N bytes and body = the rest (split_at at line %d: %s / %s)' % (sa_n[0].ln, pn, pb_),
+                  'split_at(N = %s)' % (n_[1],), d.where())
+        return
     if len(ni) != 1 or len(bi) != 1:
         ctx.bad(root, 'nonce||body split', 'cannot find the nonce / body split of the ciphertext before Dem::decrypt (line %d)' % d.ln,
                 d.where())
